@@ -262,10 +262,14 @@ def band_status(fname, P1, P2):
     f1s = list(P1.features())
     f2s = list(P2.features())
     if fname == "point_to_circle":
-        # the epsilon-controlled decision: point on the circle's axis
+        # the epsilon-controlled decision: point on the circle's axis, taken
+        # on the ABSOLUTE squared in-plane offset (default epsilon 1e-6)
         w = P1.x - P2.c
-        if np.linalg.norm(w) > 0:
-            f1s = [("line", w / np.linalg.norm(w))]
+        l = P2.R.T.dot(w)
+        off2 = float(l[0] * l[0] + l[1] * l[1])
+        if 1e-24 < off2 < 4e-6:
+            return "in-band", [off2]
+        return "clear", [off2]
     for t1, f1 in f1s:
         for t2, f2 in f2s:
             c = abs(float(np.dot(f1, f2)))
